@@ -94,6 +94,21 @@ pub fn exec(tok: &[&str]) -> String {
             let z = vh::sampler_z(fbits(tok[1]), fbits(tok[2]), fbits(tok[3]), &mut rng);
             format!("{z} {}", rng.pos)
         }
+        // ---- Z_p arithmetic and Babai reduction (C17) -------------------------------------------------
+        "u32f_new" => vh::u32f_new(tok[1].parse().unwrap()).to_string(),
+        "u32f_balanced" => vh::u32f_balanced(tok[1].parse().unwrap()).to_string(),
+        "u32f_add" => vh::u32f_add(tok[1].parse().unwrap(), tok[2].parse().unwrap()).to_string(),
+        "u32f_sub" => vh::u32f_sub(tok[1].parse().unwrap(), tok[2].parse().unwrap()).to_string(),
+        "u32f_mul" => vh::u32f_mul(tok[1].parse().unwrap(), tok[2].parse().unwrap()).to_string(),
+        "u32f_inv" => vh::u32f_inverse_or_zero(tok[1].parse().unwrap()).to_string(),
+        "u32f_fft" => ints(&vh::u32f_fft(&parse_ints::<u32>(tok[1]))),
+        "u32f_ifft" => ints(&vh::u32f_ifft(&parse_ints::<u32>(tok[1]))),
+        "u32f_ntt_mul" => {
+            let a = vh::u32f_fft(&parse_ints::<u32>(tok[1]));
+            let b = vh::u32f_fft(&parse_ints::<u32>(tok[2]));
+            ints(&vh::u32f_ifft(&vh::u32f_hadamard_mul(&a, &b)))
+        }
+        "babai" => crate::c17::run_babai(&parse_ints::<i32>(tok[2]), &parse_ints::<i32>(tok[3]), &parse_ints::<i32>(tok[4]), &parse_ints::<i32>(tok[5])),
         // ---- hash to point (C14) -------------------------------------------------------------------
         "hash_to_point" => ints(&vh::hash_to_point(&unhex(tok[2]), tok[1].parse().unwrap())),
         _ => panic!("bad-op {}", tok[0]),
